@@ -720,9 +720,11 @@ func (sm *Subscriptions) WhenArgs(
 	argNames := jw(slices.Collect(maps.Keys(args)), ",")
 	sm.log(LogOps, "[whenArgs:new] %s (%s)", state, argNames)
 
-	// try to reuse an existing channel
+	// try to reuse an existing channel (same args, same context)
 	for _, binding := range sm.whenArgs[handler] {
-		if compareArgs(binding.args, args) {
+		if binding.ctx == ctx && compareArgs(binding.args, args) &&
+			compareArgs(args, binding.args) {
+
 			return binding.ch
 		}
 	}
